@@ -57,6 +57,48 @@ func reachPruned(from *ssa.BasicBlock, known condOracle, stop *ssa.BasicBlock) (
 	return seen, backs
 }
 
+// withFacts extends an oracle by the guard-fact dataflow: a condition that
+// contradicts what is known at its own block (e.g. len(x) < 0) is decided.
+func withFacts(fn *ssa.Function, known condOracle) condOracle {
+	fs := NewFacts(fn, nil)
+	condBlock := map[ssa.Value]*ssa.BasicBlock{}
+	for _, b := range fn.Blocks {
+		if iff, ok := b.Instrs[len(b.Instrs)-1].(*ssa.If); ok {
+			c := iff.Cond
+			for {
+				u, ok := c.(*ssa.UnOp)
+				if !ok || u.Op != token.NOT {
+					break
+				}
+				c = u.X
+			}
+			condBlock[c] = b
+		}
+	}
+	return func(cond ssa.Value) (bool, bool) {
+		if v, k := known(cond); k {
+			return v, true
+		}
+		b := condBlock[cond]
+		if b == nil {
+			return false, false
+		}
+		st, reach := fs.At(b)
+		if !reach {
+			return false, false
+		}
+		_, okT := fs.applyCond(st, cond, true)
+		_, okF := fs.applyCond(st, cond, false)
+		if okT && !okF {
+			return true, true
+		}
+		if okF && !okT {
+			return false, true
+		}
+		return false, false
+	}
+}
+
 func evalCond(cond ssa.Value, known condOracle) (bool, bool) {
 	neg := false
 	for {
@@ -258,14 +300,14 @@ func extractReader(w *World, pkg *ssa.Package) (*readerTable, []string) {
 	rt.headers = append(rt.headers, "?") // any other character
 	for _, s := range rt.states {
 		s := s
-		stateKnown := func(cond ssa.Value) (bool, bool) {
+		stateKnown := withFacts(fn, func(cond ssa.Value) (bool, bool) {
 			if bo, ok := cond.(*ssa.BinOp); ok && (bo.Op == token.EQL || bo.Op == token.NEQ) && bo.X == ssa.Value(statePhi) {
 				if k, ok := constInt(bo.Y); ok {
 					return (k == s) == (bo.Op == token.EQL), true
 				}
 			}
 			return false, false
-		}
+		})
 		// which allow call is reachable for this state (before the error test)
 		reach, _ := reachPruned(bodyEntry, stateKnown, loop.Header)
 		var allowedSet map[string]bool
@@ -423,6 +465,7 @@ func extractReader(w *World, pkg *ssa.Package) (*readerTable, []string) {
 		if endBlock != nil {
 			reach, _ := reachPruned(endBlock, stateKnown, nil)
 			okRet := 0
+			counts := map[int]bool{}
 			for b := range reach {
 				ret, ok := b.Instrs[len(b.Instrs)-1].(*ssa.Return)
 				if !ok || ea.isErrorReturn(ret) {
@@ -432,7 +475,11 @@ func extractReader(w *World, pkg *ssa.Package) (*readerTable, []string) {
 				if isNilErrReturn(ret) {
 					okRet++
 					et.Flushes = countFlushesIn(ret.Results[0], diffPhi, stateKnown, reach, map[ssa.Value]bool{})
+					counts[et.Flushes] = true
 				}
+			}
+			if len(counts) > 1 {
+				et.Problems = append(et.Problems, fmt.Sprintf("end of input in state %d can flush %v times depending on data", s, counts))
 			}
 			et.Reject = okRet == 0
 		}
@@ -783,6 +830,11 @@ func ruleAutomaton(w *World, r *Report, pkg *ssa.Package) {
 			} else {
 				r.Ok(rule, key, pos, "transition "+tr.String())
 			}
+		}
+	}
+	for _, s := range rt.states {
+		if et := rt.end[s]; et != nil && len(et.Problems) > 0 {
+			r.Unk(rule, fmt.Sprintf("readDiff:end(%d)", s), pos, strings.Join(et.Problems, "; "))
 		}
 	}
 	// writer table sanity
